@@ -50,6 +50,13 @@ fn conversions(r: &mut Report, b: &[u8], c: &CStr) {
     if g != c.to_bytes_with_nul() || g.as_ptr() != c.to_bytes_with_nul().as_ptr() {
         r.fail("to_bytes_with_nul", "to_bytes_with_nul", inp(), format!("{:?}", g), format!("{:?}", c.to_bytes_with_nul()));
     }
+    // the error is std's Utf8Error (wrapped): "equal std's" includes where the valid prefix ends and how long
+    // the offending sequence is
+    let ge = kc::to_str(c).map_err(|e| (e.0.valid_up_to(), e.0.error_len())).err();
+    let we = c.to_str().map_err(|e| (e.valid_up_to(), e.error_len())).err();
+    if ge != we {
+        r.fail("to_str.error", "to_str", inp(), format!("{:?}", ge), format!("{:?}", we));
+    }
     let g = kc::to_str(c).ok();
     let w = c.to_str().ok();
     r.ev(if w.is_some() { "to_str:Ok" } else { "to_str:Err" });
@@ -75,7 +82,7 @@ pub fn run(cfg: &Cfg) -> (&'static str, Report, String, String) {
         }
     });
     // valid multi-byte UTF-8 and truncated sequences before the nul
-    let alpha2 = [0u8, 0xC3, 0xB1, b'x', 0xE5];
+    let alpha2 = [0u8, 0xC3, 0xB1, b'x', 0xE5, 0xF0, 0x9F];
     let all2 = bytes_upto(&alpha2, cfg.by(3, 5, 6));
     rep.merge(par_for(cfg, all2.len(), |i, r| one(r, &all2[i])));
     // planted: every length 0..=L, first nul at every position (none, one, or a second nul later), non-zero
@@ -121,6 +128,6 @@ pub fn run(cfg: &Cfg) -> (&'static str, Report, String, String) {
         "C20",
         rep,
         format!("all {} byte strings of length <= {} over {{0,'a',0xFF}}; all {} over {{0,0xC3,0xB1,'x',0xE5}}; {} seeded random byte strings; planted: every length 0..={} x filler {{'a',0x80,0xFF,0x01}} x first nul at every position (alone, + last byte nul, + next byte nul)", all.len(), cfg.by(4, 6, 8), all2.len(), nrand, maxl),
-        "one evaluation = one konst::ffi::cstr call compared with core::ffi::CStr (from_bytes_until_nul / from_bytes_with_nul succeed iff std's do and give an equal &CStr that borrows from the input; to_bytes, to_bytes_with_nul by value and address, to_str); error variants are not compared; non-trivial = distinct inputs of length >= 2 containing a nul".into(),
+        "one evaluation = one konst::ffi::cstr call compared with core::ffi::CStr (from_bytes_until_nul / from_bytes_with_nul succeed iff std's do and give an equal &CStr that borrows from the input; to_bytes, to_bytes_with_nul by value and address, to_str incl. valid_up_to / error_len of its Utf8Error); the constructors' error variants are not compared; non-trivial = distinct inputs of length >= 2 containing a nul".into(),
     )
 }
